@@ -22,12 +22,12 @@ QUICK_LAYOUTS = [
     ([1, 3], [(0, 0), (1, 1)]),
     ([1, 1, 1], [(1, 0)]),
     ([4], [(0, 1)]),
+    ([1, 1], [(0, 0)]),
 ]
 THOROUGH_LAYOUTS = QUICK_LAYOUTS + [
     ([3], [(0, 1)]),
     ([1], [(0, 0)]),
     ([2], [(0, 0), (0, 1)]),
-    ([1, 1], [(0, 0)]),
     ([1, 2], [(0, 0), (1, 0)]),
     ([2, 3], [(0, 1), (1, 2)]),
     ([3, 3], [(0, 0), (1, 2)]),
@@ -46,8 +46,8 @@ META = {
     "bounds": {
         "shape": "ONE selection from a membership map whose per-data-centre rotating cursors are ARBITRARY reachable values "
                  "(0..=len: 'whatever selections were made before' - the cursor is the only state a selection leaves behind)",
-        "configurations": "one harness per (layout, local node position, consistency level); quick: layouts [3] [2,2] [1,3] [1,1,1] [4]; "
-                          "thorough adds [1] [2] [1,1] [1,2] [2,3] [3,3] [2,1,1] [1,2,2] [2,2,2] [3,2,1] [3,3,3] [1,1,1,1] [2,1,1,1] [5]; all 8 levels each",
+        "configurations": "one harness per (layout, local node position, consistency level); quick: layouts [3] [2,2] [1,3] [1,1,1] [4] [1,1]; "
+                          "thorough adds [1] [2] [1,2] [2,3] [3,3] [2,1,1] [1,2,2] [2,2,2] [3,2,1] [3,3,3] [1,1,1,1] [2,1,1,1] [5]; all 8 levels each",
         "rng": "every draw of the random data-centre choice is symbolic (choose_multiple returns an arbitrary subset of the requested size in arbitrary order); configurations that reach that branch are thorough-tier only",
         "unwind": "NodeVec capacity + 2; each layout runs in the crate with the smallest capacity that fits it (4, 5 or 8 -> unwind 6, 7, 10): covers nodes per DC + 1, 4-byte memcmp + 1, map capacity 4 + 1; checked by unwinding assertions",
     },
